@@ -2523,11 +2523,77 @@ def check_C08(run):
             run.violation(dict(kind='harness-problem', what='the crash-point hook did not log the expected points', rc=r['rc'], points=npoints, stderr=r['err'][-400:]), no_input=True)
         src_snap = l3.snapshot(src)
         todo = list(range(1, npoints + 1)) if thorough or npoints <= 60 else sorted(rng.sample(range(1, npoints + 1), 60))
+        from . import fsx as _fsx
+        def walk_order(top):
+            # the order of the walk: a whole directory (in readdir order) before descending
+            out, queue = [], ['']
+            while queue:
+                d_ = queue.pop(0)
+                for e_ in os.scandir(os.path.join(top, d_) if d_ else top):
+                    rel_ = (d_ + '/' if d_ else '') + e_.name
+                    out.append(rel_)
+                    if e_.is_dir(follow_symlinks=False): queue.append(rel_)
+            return out
+        def node_toks(top, name):
+            t_ = [C.X(name), 'D']; n_ = 1
+            for rel_ in walk_order(top):
+                fp = os.path.join(top, rel_); st_ = os.lstat(fp); n_ += 1
+                import stat as _st
+                if _st.S_ISLNK(st_.st_mode): t_ += [C.X(name + '/' + rel_), 'L', C.X(os.readlink(fp))]
+                elif _st.S_ISDIR(st_.st_mode): t_ += [C.X(name + '/' + rel_), 'D']
+                else: t_ += [C.X(name + '/' + rel_), 'F', str(st_.st_mtime_ns), C.X(open(fp, 'rb').read())]
+            return [str(n_)] + t_
+        def model_states(src_, dst_):
+            ans = C.run_model(['syncprefixes ' + ' '.join([C.X('S')] + node_toks(src_, 'S') + [C.X('D')] + node_toks(dst_, 'D'))])[0]
+            out = []
+            for part in ans.split('|'):
+                if not part.startswith('next='): return None
+                nx, fs_ = part[5:].split(' fs=[', 1)
+                ents = {}
+                for e_ in fs_.rstrip(']').split(';'):
+                    if '=' not in e_: continue
+                    k_, v_ = e_.split('=', 1); kp = bytes.fromhex(k_)
+                    if kp == b'D': continue
+                    ents[kp[2:]] = v_
+                out.append((nx, ents))
+            return out
+        def real_state(dst_, t0_):
+            ents = {}
+            for e_ in _fsx.snapshot_world(dst_, t0_).split(';'):
+                if '=' in e_:
+                    k_, v_ = e_.split('=', 1); ents[bytes.fromhex(k_)] = v_
+            return ents
+        def is_model_state(real, states):
+            # a state of the model, or one of them with the file that comes next in the making (created, some of its bytes, a fresh time;
+            # or all of its bytes and already its final time: the last sub-step done, the command not yet counted as finished)
+            for k_, (nx, ents) in enumerate(states):
+                if real == ents: return k_
+                if nx.startswith('F:'):
+                    q_ = bytes.fromhex(nx[2:]); want_ = states[k_ + 1][1].get(q_) if k_ + 1 < len(states) else None
+                    got_ = real.get(q_)
+                    if got_ and want_ and {x: y for x, y in real.items() if x != q_} == {x: y for x, y in ents.items() if x != q_} and got_.startswith('F:fresh:') and want_.split(':', 2)[2].startswith(got_.split(':', 2)[2]):
+                        return k_
+            return None
         for n in todo:
             base, src, dst = build(f'crash{n}')
             pre = l3.snapshot(dst)
+            states = model_states(src, dst)
+            import time as _tmm
+            t0_ = _tmm.time_ns() - 2_000_000_000
             r = l4.run_cli([src + '/', dst + '/'] + flags, env=sb.env({'RJRSSYNC_VERIF_CRASH_AT': str(n)}), timeout=60)
             snap = l3.snapshot(dst)
+            # tie of the crash-point theorems: the tree the crash left is one of the states the model goes through
+            if states is None:
+                run.violation(dict(kind='correspondence-broken', correspondence='L4/crash-states', note='the model driver did not answer the syncprefixes request'), no_input=True); break
+            k_state = is_model_state(real_state(dst, t0_), states)
+            run.count('crash-state:' + ('is-a-model-state' if k_state is not None else 'IS-NOT'))
+            if k_state is None and not any(v[0].get('correspondence') == 'L4/crash-states' for v in run.violations):
+                real_ = real_state(dst, t0_)
+                near = min(range(len(states)), key=lambda k_: len(set(real_.items()) ^ set(states[k_][1].items())))
+                run.violation(dict(kind='correspondence-broken', correspondence='L4/crash-states', crash_point=n, point_kind=points[n - 1][1] if n <= len(points) else '?',
+                                   note='the destination tree a crash left behind is none of the states the model of the destination half goes through (C08_recovery_from_crash_* speak about those)',
+                                   nearest_model_state=near, only_real=sorted(f'{a_!r}={b_[:50]}' for a_, b_ in set(real_.items()) - set(states[near][1].items()))[:5],
+                                   only_model=sorted(f'{a_!r}={b_[:50]}' for a_, b_ in set(states[near][1].items()) - set(real_.items()))[:5]), no_input=True)
             bad = []
             for p, e in snap.items():
                 s_ent = src_snap.get(p)
